@@ -321,6 +321,12 @@ class NeoxEnv:
         for dk in ('factor_dtype', 'inv_dtype'):
             if k.get(dk):
                 kw[dk] = getattr(torch, k[dk])
+        # loss scaling (AMP-style): a power-of-two scale that changes from
+        # iteration to iteration; K-FAC is handed the callable and must see
+        # exactly the unscaled output gradients
+        self.loss_scale: float | None = None
+        if plan.get('loss_scale'):
+            kw['grad_scaler'] = lambda: self.loss_scale
         with warnings.catch_warnings():
             warnings.simplefilter('ignore')
             self.pre = GPTNeoXKFACPreconditioner(self.model, **kw)
@@ -360,8 +366,10 @@ class NeoxEnv:
         def hook(mod: Any, gi: Any, go: Any) -> None:
             if self.capturing:
                 g = go[0] if isinstance(go, tuple) else go
-                self.caps.setdefault(name, {'a': [], 'g': []})['g'].append(
-                    g.detach().clone())
+                g = g.detach().clone()
+                if self.loss_scale is not None:
+                    g = g / self.loss_scale  # exact: power of two
+                self.caps.setdefault(name, {'a': [], 'g': []})['g'].append(g)
         return hook
 
     def _set_weights(self, it: int) -> None:
@@ -468,14 +476,23 @@ class NeoxEnv:
         rec['caps'] = self.caps
         self.capturing = True
         acc = plan['acc']
+        if plan.get('loss_scale'):
+            self.loss_scale = float(plan['loss_scale']) * 2.0 ** (it % 3)
+            self.sim.probe('neox_loss_scaling')
         for micro in range(acc):
             x, y = batch(plan, self.stage, self.dpc, it, micro)
             out = self.model(x)
             loss = plan['loss_gain'] * 0.5 * ((out - y) ** 2).sum() / (
                 out.shape[0] ** 0.5) / acc
+            if self.loss_scale is not None:
+                loss = loss * self.loss_scale
             loss.backward()
         self.capturing = False
         params = [p for p in self.model.parameters() if p.grad is not None]
+        if self.loss_scale is not None:
+            with torch.no_grad():
+                for p in params:
+                    p.grad.div_(self.loss_scale)
         if plan['data'] > 1:
             with torch.no_grad():
                 flat = torch.cat([p.grad.reshape(-1) for p in params])
@@ -752,6 +769,9 @@ def gen_neox_plan(rng: random.Random, tier: str, *, restarts: float,
         'seq': rng.choice([None, None, 1, 2, 3]),
         'hps': hps, 'acc': acc, 'hook': hook,
         'loss_gain': rng.choice([1.0, 3.0]),
+        # derived, not drawn (older seeds keep their choice tape)
+        'loss_scale': [None, 8.0, None, 64.0][(pp + 3 * dp + 5 * mp + acc
+                                               + len(clean)) % 4],
         'kfac': {
             # from 'every tensor oversized' over 'a few factors per
             # bucket' to 'everything in one bucket'
